@@ -1,0 +1,8 @@
+//go:build verif
+
+package types
+
+// VerifSkipSeal (verification hook, build tag "verif" only): when set, the
+// ethash seal computation in verifyCascadingFields is skipped, so that
+// synthetic header trees can be built without mining. Nothing else changes.
+var VerifSkipSeal bool
